@@ -31,7 +31,7 @@ RULE = ("each run draws a spin-doubled random Hermitian system (exact twofold de
         "injected fault). distinct = hash of (system, k, G, grid, calculators, gauge seeds); non-trivial = at least one "
         "degenerate block was actually rotated")
 PROBES = ["gauge_blocks_rotated", "gauge_runs", "evaluate_k_compared", "run_compared",
-          "vacuous_outputs", "periodicity_compared", "tabulated_compared", "kramers_system", "tetra_run"]
+          "vacuous_outputs", "periodicity_compared", "tabulated_compared", "kramers_system", "tetra_run", "near_degenerate_system"]
 REAL = ["Data_K / Data_K_R (random_gauge, UU_K, degen)", "evaluate_k", "formula.covariant / Formula_ln.trace", "static calculators",
         "Tabulators", "run_grid.run"]
 STUB = ["numpy global RNG seeded by the simulator; scipy.stats.unitary_group.rvs wrapped to count rotated blocks"]
@@ -76,6 +76,20 @@ def _simulate(dec, rec, tier, scr):
         X = rs.random_sample(shape) + 1j * rs.random_sample(shape) - 0.5 - 0.5j
         X = 0.5 * (X + np.einsum("ab,Rbc,dc->Rad", T, X.conj(), T))
         system.set_R_mat("Ham", X, Hermitian=True, reset=True)
+    # third class: NEARLY degenerate pairs - the second spin copy is shifted on-site by 1e-6..3e-6 eV, far below the 1e-4 eV
+    # within which random_gauge rotates (and the calculators group) bands.  The rotated states are eigenstates only up to
+    # split/gap, so invariance is demanded to 1e-4 of the scale here instead of 1e-8.
+    near = (not kramers) and bool(dec.chance("sys/near_degenerate", 1, 4))
+    rtol = 1e-8
+    if near:
+        rec.fire("near_degenerate_system")
+        split = [1e-6, 3e-6][dec("sys/split", 2)]
+        H = system.get_R_mat("Ham").copy()
+        iR0 = system.rvec.iR0
+        for i in range(1, 2 * nw, 2):
+            H[iR0, i, i] += split
+        system.set_R_mat("Ham", H, reset=True)
+        rtol = 1e-4
     k = np.array([0.01 * (1 + dec(f"k/{i}", 98)) + 0.0037 for i in range(3)])
     if kramers and dec.chance("k/trim", 1, 2):
         k = np.array([0.5 * dec(f"k/trim/{i}", 2) for i in range(3)])
@@ -97,9 +111,9 @@ def _simulate(dec, rec, tier, scr):
     lo = [-1.0, -0.6, -0.3, 0.0, 0.3, -1.5][dec("calc/Ef_lo", 6)]
     Ef = zoo.fermi_grid(4 + dec("calc/nEf", 3), lo, lo + [4.0, 1.0, 0.6][dec("calc/Ef_span", 3)])
     sample = dict(num_wann=2 * nw, morb=morb, k=k.tolist(), G=G.tolist(), quantities=qs, calculators=cset, tabulate=tab,
-                  NKdiv=NKdiv, NKFFT=NKFFT, gauge_runs=m, kramers=kramers, tetra=tetra)
+                  NKdiv=NKdiv, NKFFT=NKFFT, gauge_runs=m, kramers=kramers, tetra=tetra, near_degenerate=near)
     base = dict(sample=sample, counters={}, real=REAL, stub=STUB, vtime=0.0)
-    hist = [seed, nw, morb, k.tolist(), G.tolist(), qs, cset, tab, NKdiv, NKFFT, kramers, tetra]
+    hist = [seed, nw, morb, k.tolist(), G.tolist(), qs, cset, tab, NKdiv, NKFFT, kramers, tetra, near]
 
     def finish(viol=None, nontrivial=True):
         sig = hashlib.blake2b(repr(hist).encode(), digest_size=8).hexdigest()
@@ -152,7 +166,7 @@ def _simulate(dec, rec, tier, scr):
         for q in ref["ek"]:
             sc = scale_of("ek", q)
             rec.fire("periodicity_compared")
-            if np.max(np.abs(ref["ek"][q] - ref["ekG"][q])) > 1e-8 * sc + 1e-13:
+            if np.max(np.abs(ref["ek"][q] - ref["ekG"][q])) > rtol * sc + 1e-13:
                 return finish(("not_periodic", f"'{q}' at k={k.tolist()} and at k+G, G={G.tolist()}, differ by "
                                                f"{np.max(np.abs(ref['ek'][q] - ref['ekG'][q])):.3e} (scale {sc:.3e})"))
         # ---- gauge faults
@@ -184,7 +198,7 @@ def _simulate(dec, rec, tier, scr):
                             rec.fire("vacuous_outputs")
                             continue
                         err = float(np.max(np.abs(np.asarray(g) - np.asarray(want)))) if np.shape(g) == np.shape(want) else np.inf
-                        if not err <= 1e-8 * sc + 1e-13:
+                        if not err <= rtol * sc + 1e-13:
                             what = dict(ek="evaluate_k quantity", run="run() result", tab="tabulated quantity")[group]
                             return finish(("gauge_dependent", f"{what} '{key}' changes by {err:.3e} (scale {sc:.3e}) under a random "
                                                               f"unitary rotation of the degenerate eigenvectors (RNG seed {gseed}, "
